@@ -19,7 +19,7 @@ HARNESS = os.path.join(ROOT, "harness")
 WORK = os.path.join(ROOT, "work")
 EVID = os.path.join(ROOT, "evidence")
 REPLAYS = os.path.join(ROOT, "replays")
-REPO = "/repo"
+REPO = os.environ.get("VERIF_REPO", "/repo")     # (selftest/try_isolated.sh points a copy of /verif at a scratch worktree)
 STUNH = os.path.join(HARNESS, "target", "debug", "stunh")
 KNOWN = os.path.join(ROOT, "known_findings.json")
 
